@@ -422,8 +422,10 @@ def r4(k: Kit) -> None:
     # `if self._kexinit_sent: ... else: self._send_kexinit()` statement
     head = []
     for st in pk.node.body:
-        if isinstance(st, ast.If) and dotted(st.test) in ('self._kex',
-                                                         'self._kexinit_sent'):
+        if isinstance(st, ast.If) and (
+                dotted(st.test) in ('self._kex', 'self._kexinit_sent') or
+                'self._kex' in {dotted(x) for x in ast.walk(st.test)
+                                if isinstance(x, ast.Attribute)}):
             head.append(st)
     rep.check(len(head) == 2, 'C11.R4', key(pk, 'head statements'),
               'in-progress test and sent-flag test found',
@@ -436,7 +438,8 @@ def r4(k: Kit) -> None:
                 try:
                     o = evaluate(idx, pk.module, head,
                                  {'self._kex': kex,
-                                  'self._kexinit_sent': sent}, {},
+                                  'self._kexinit_sent': sent,
+                                  'self._next_recv_encryption': None}, {},
                                  lambda nm, a, e: Obj('x'))
                 except NotEvaluable as exc:
                     rep.error('C11.R4', 'not-evaluable', str(exc))
